@@ -750,21 +750,47 @@ Lemma edt_as_datetime_type_irrelevant : forall v t1 t2 sys,
   edt_as_datetime {| edt_value := v; edt_is_duration := t2; edt_is_1904 := sys |}.
 Proof. reflexivity. Qed.
 
-(* outside the two known classes a helper returns the cell's own conversion *)
-Theorem helpers_agree : forall c, c <> CError ->
-  (known_C11_helper_dt c = None ->
-     helper_as_datetime c = data_as_datetime c /\ helper_as_date c = data_as_date c /\
-     helper_as_time c = data_as_time c) /\
-  (known_C11_helper_dur c = None -> helper_as_duration c = data_as_duration c).
+(* the variant name carries the type and the date system: a DateTime cell comes back as itself *)
+Lemma of_cell_variant_roundtrip : forall x,
+  of_cell_variant (cell_variant x) (edt_value x) = Some x.
+Proof. intros [v [|] [|]]; reflexivity. Qed.
+
+(* Data::deserialize_from(cell deserializer, true) reproduces every cell that is not an error *)
+Theorem de_roundtrip_id : forall c, c <> CError -> de_roundtrip c = Ok c.
 Proof.
-  intros c Hc. destruct c as [i|f|x| |]; try (repeat split; reflexivity); [|congruence].
-  destruct x as [v ty sys]. split.
-  - cbn [known_C11_helper_dt edt_is_1904]. destruct sys; [discriminate|]. intros _.
-    repeat split; reflexivity.
-  - cbn [known_C11_helper_dur]. intros H.
-    unfold helper_as_duration, de_roundtrip. cbn [obind data_as_duration edt_value].
-    destruct (edt_as_duration _) as [[r|]| | |]; try discriminate H. reflexivity.
+  intros c Hc. destruct c as [i|f|x| |]; try reflexivity; [|congruence].
+  unfold de_roundtrip. rewrite of_cell_variant_roundtrip. reflexivity.
 Qed.
+
+(* a helper returns the cell's own conversion: for every cell, including DateTime cells of a
+   1904-system workbook and of the TimeDelta flavour *)
+Theorem helpers_agree : forall c, c <> CError ->
+  helper_as_datetime c = data_as_datetime c /\ helper_as_date c = data_as_date c /\
+  helper_as_time c = data_as_time c /\ helper_as_duration c = data_as_duration c.
+Proof.
+  intros c Hc.
+  unfold helper_as_datetime, helper_as_date, helper_as_time, helper_as_duration.
+  rewrite (@de_roundtrip_id c Hc). cbn [obind]. repeat split; reflexivity.
+Qed.
+
+(* ... in particular for a DateTime cell, whatever its value, type and date system *)
+Corollary helpers_datetime_cell : forall v ty sys,
+  let x := {| edt_value := v; edt_is_duration := ty; edt_is_1904 := sys |} in
+  helper_as_datetime (CDateTime x) = edt_as_datetime x /\
+  helper_as_date (CDateTime x) = data_as_date (CDateTime x) /\
+  helper_as_time (CDateTime x) = data_as_time (CDateTime x) /\
+  helper_as_duration (CDateTime x) = edt_as_duration x.
+Proof.
+  intros v ty sys x.
+  assert (Hc : CDateTime x <> CError) by discriminate.
+  destruct (@helpers_agree (CDateTime x) Hc) as (H1 & H2 & H3 & H4). repeat split; assumption.
+Qed.
+
+(* an error cell fails the deserialization (DeError::CellError), for every helper *)
+Theorem helpers_error_cell :
+  helper_as_datetime CError = Err 1 /\ helper_as_date CError = Err 1 /\
+  helper_as_time CError = Err 1 /\ helper_as_duration CError = Err 1.
+Proof. repeat split; reflexivity. Qed.
 
 Theorem helpers_no_panic : forall c,
   helper_as_datetime c <> Panic /\ helper_as_date c <> Panic /\
@@ -775,11 +801,13 @@ Proof.
   - destruct (data_no_panic c') as ([r1 H1] & [r2 H2] & [r3 H3] & [r4 H4]).
     rewrite H1, H2, H3, H4. repeat split; discriminate.
   - repeat split; discriminate.
-  - destruct c; discriminate E.
-  - destruct c; discriminate E.
+  - destruct c as [i|f|x| |]; try discriminate E.
+    unfold de_roundtrip in E. rewrite of_cell_variant_roundtrip in E. discriminate E.
+  - destruct c as [i|f|x| |]; try discriminate E.
+    unfold de_roundtrip in E. rewrite of_cell_variant_roundtrip in E. discriminate E.
 Qed.
 
-(* both classes are real *)
+(* the former witnesses of F34 and F35 (fixed): the helpers now return the cell's conversion *)
 Definition CELL_1904 : cell :=         (* 45000.5 in a 1904-system workbook *)
   CDateTime {| edt_value := f64_of_bits 0x40E5F91000000000; edt_is_duration := false;
                edt_is_1904 := true |}.
@@ -787,32 +815,19 @@ Definition CELL_36H : cell :=          (* 1.5 days, [h]:mm:ss format *)
   CDateTime {| edt_value := f64_of_bits 0x3FF8000000000000; edt_is_duration := true;
                edt_is_1904 := false |}.
 
-Theorem refuted_helper_drops_1904 :
-  exists c, c <> CError /\ known_C11_helper_dt c = Some HELPER_DROPS_1904 /\
-    data_as_datetime c = Ok (Some {| dt_days := days_of_civil 2027 3 16; dt_time := (43200, 0) |}) /\
-    helper_as_datetime c = Ok (Some {| dt_days := days_of_civil 2023 3 15; dt_time := (43200, 0) |}) /\
-    helper_as_datetime c <> data_as_datetime c.
-Proof.
-  exists CELL_1904. split; [discriminate|]. split; [reflexivity|].
-  assert (H1 : data_as_datetime CELL_1904 =
-               Ok (Some {| dt_days := days_of_civil 2027 3 16; dt_time := (43200, 0) |}))
-    by (vm_compute; reflexivity).
-  assert (H2 : helper_as_datetime CELL_1904 =
-               Ok (Some {| dt_days := days_of_civil 2023 3 15; dt_time := (43200, 0) |}))
-    by (vm_compute; reflexivity).
-  split; [exact H1|]. split; [exact H2|]. rewrite H1, H2. intros H. inversion H.
-Qed.
+Example helper_keeps_1904 :
+  helper_as_datetime CELL_1904 =
+    Ok (Some {| dt_days := days_of_civil 2027 3 16; dt_time := (43200, 0) |}) /\
+  helper_as_datetime CELL_1904 = data_as_datetime CELL_1904.
+Proof. split; vm_compute; reflexivity. Qed.
 
-Theorem refuted_helper_duration_none :
-  exists c, c <> CError /\ known_C11_helper_dur c = Some HELPER_DURATION_NONE /\
-    data_as_duration c = Ok (Some (129600, 0)) /\ helper_as_duration c = Ok None.
-Proof.
-  exists CELL_36H. split; [discriminate|]. repeat split; vm_compute; reflexivity.
-Qed.
+Example helper_duration_some :
+  helper_as_duration CELL_36H = Ok (Some (129600, 0)) /\
+  helper_as_duration CELL_36H = data_as_duration CELL_36H.
+Proof. split; vm_compute; reflexivity. Qed.
 
 Example helpers_agree_nonvacuous :
   let c := CDateTime {| edt_value := V45000; edt_is_duration := false; edt_is_1904 := false |} in
-  c <> CError /\ known_C11_helper_dt c = None /\
-  helper_as_datetime c = Ok (Some (at_midnight (days_of_civil 2023 3 15))) /\
-  known_C11_helper_dur (CFloat V45000) = None.
-Proof. split; [discriminate|]. repeat split; vm_compute; reflexivity. Qed.
+  c <> CError /\
+  helper_as_datetime c = Ok (Some (at_midnight (days_of_civil 2023 3 15))).
+Proof. split; [discriminate|]. vm_compute; reflexivity. Qed.
